@@ -406,6 +406,13 @@ func c09(args []string) {
 		for i := 0; i < nscr; i++ {
 			runScripted(w, rng, []int{1, 1, 4, 2}[i%4])
 		}
+		nq := 4
+		if thorough {
+			nq = 16
+		}
+		for i := 0; i < nq; i++ {
+			runQuiet(w, rng, i+int(tr.Seed())*(nq%8))
+		}
 		for i := 0; i < 4+nfree/20; i++ {
 			in := wellStructuredFrames(rng, 6+rng.Intn(10))
 			capsets := [][]int{{-1, 0, 1}, {0, -1, -1, 2}, {-1, -1, 0}, {1, 0}}
@@ -565,6 +572,65 @@ func runScripted(w *tr.Writer, rng *rand.Rand, procs int) {
 		break
 	}
 	if end.Returned {
+		end.Leaked = settle2(base)
+	}
+	w.Emit(end)
+}
+
+// runQuiet: the source goes quiet for a while at a chosen byte - in the middle of a run of other data, one byte into
+// it, inside a leader, inside a payload, between two frames - and then carries on: what the consumers get is the
+// same as from a source that never pauses
+func runQuiet(w *tr.Writer, rng *rand.Rand, variant int) {
+	a := gen.Frame(rng, 1077, 20+rng.Intn(20), 0)
+	j := gen.Junk(rng, 16+rng.Intn(10), 1)
+	b := gen.Frame(rng, 1005, 19, 0)
+	c := gen.Frame(rng, 1230, 5, 0)
+	in := gen.Cat(a, j, b, c)
+	at := []int{len(a) + len(j)/2, len(a) + 1, len(a) + len(j) + 2, len(a) + len(j) + 9, len(a) + len(j) + len(b), len(a) + len(j) - 1, 1, len(in) - 2}[variant%8]
+	quiet := []time.Duration{350, 700, 250}[variant%3] * time.Millisecond
+	ref := sequentialRef(in, c09Start)
+	c1 := make(chan handler.Message, 16)
+	c2 := make(chan handler.Message)
+	chans := []chan handler.Message{c1, c2}
+	w.Emit(c09Case{"case", ref, 2, fmt.Sprintf("quiet%dms@%d", quiet/time.Millisecond, at), []int{16, 0}, len(in), runtime.GOMAXPROCS(0)})
+	base := runtime.NumGoroutine()
+	verifhook.Handler = nil
+	src := newFeedSource()
+	ret := make(chan string, 1)
+	go func() {
+		ret <- tr.Recover(func() {
+			appcore.New(&jsonconfig.Config{}, chans).HandleMessagesUntilEOF(c09Start, bufio.NewReader(src))
+		})
+	}()
+	var got2 []handler.Message
+	done2 := make(chan struct{})
+	go func() {
+		for m := range c2 {
+			got2 = append(got2, m)
+		}
+		close(done2)
+	}()
+	src.Feed(in[:at])
+	time.Sleep(quiet)
+	src.Feed(in[at:])
+	src.Close()
+	end := c09End{Ev: "end"}
+	select {
+	case p := <-ret:
+		end.Returned, end.Panic = true, p
+	case <-time.After(10 * time.Second):
+	}
+	if end.Returned {
+		close(c1)
+		close(c2)
+		<-done2
+		for m := range c1 {
+			mm := m
+			w.Emit(c09Recv{"recv", 1, msgDigest(&mm)})
+		}
+		for i := range got2 {
+			w.Emit(c09Recv{"recv", 2, msgDigest(&got2[i])})
+		}
 		end.Leaked = settle2(base)
 	}
 	w.Emit(end)
